@@ -107,6 +107,11 @@ class Driver:
         self.data = rng.normal(size=(T, nw)) + rng.integers(0, 3, size=(T, 1)) * 2.0
         lam = np.full((nw, nw), 0.11) if lam_matrix else 0.11
         beta = np.full(T, 1.5) if beta_vector else 1.5
+        if beta_vector:
+            # free transitions (exact zeros), among them at both ends of the chain; the pattern follows from the case seed
+            for pos, bit in ((0, 1), (1, 2), (T - 2, 4), (T - 1, 8), (T // 2, 16), (T // 2 + 1, 16)):
+                if (seed >> 3) & bit:
+                    beta[pos] = 0.0
         args = arguments.UserArguments(sparsity_weight=lam, iteration_limit=5, label_switching_cost=beta, min_cluster_size=m,
                                        min_meaningful_covariance=0, num_clusters=K, num_processors=1, window_size=W,
                                        biased_covariance=biased)
@@ -323,14 +328,21 @@ def execute_trace(case, t):
 # ----------------------------------------------------------------------------- traced half
 
 def execute_e2e(case, t):
-    tr = ce.traced_run(case, t, sync_pool=True, record_admm=False)
+    # the states a run went through are examined even when the run raised later on (a phase that hands on a state which is
+    # not a partition usually makes the *next* phase fail); only then is the run set aside as "did not complete"
+    tr = e2e.run(case, sync_pool=True, record_admm=False)
     K = case["K"]
-    T = len(tr.begin["stacked"])
-    check_partition_snap(tr.begin["initial"], K, T, "initial state")
-    for r, q in enumerate(tr.rounds):
-        for name, ph in q["phases"].items():
-            check_partition_snap(ph["before"], K, T, f"round {r}: input of {name}")
-            check_partition_snap(ph["after"], K, T, f"round {r}: output of {name}")
+    if tr.begin is not None:
+        T = len(tr.begin["stacked"])
+        check_partition_snap(tr.begin["initial"], K, T, "initial state")
+        for r, q in enumerate(tr.rounds):
+            for name, ph in q["phases"].items():
+                check_partition_snap(ph["before"], K, T, f"round {r}: input of {name}")
+                check_partition_snap(ph["after"], K, T, f"round {r}: output of {name}")
+    if not tr.ok:
+        t.discard(f"run raised {type(tr.exc).__name__}: {str(tr.exc)[:70]}")
+    if tr.end is None or tr.begin is None:
+        raise Violation("run returned a result without passing through the main loop's begin/end hooks")
     check_partition_snap(tr.end["model"], K, T, "final state")
     late = e2e.late_mutations(tr)
     if late:
